@@ -101,6 +101,18 @@ func registerVerifExternals(sh *Shared) {
 		fr.i.ex.reached[args[0].(string)] = true
 		return nil
 	})
+	reg(mainPath+".bOr", func(fr *frame, args []value) value {
+		e := fr.i.ex
+		return e.mkval(e.pool.Or(fr.i.boolTerm(args[0]), fr.i.boolTerm(args[1])), types.Bool)
+	})
+	reg(mainPath+".bAnd", func(fr *frame, args []value) value {
+		e := fr.i.ex
+		return e.mkval(e.pool.And(fr.i.boolTerm(args[0]), fr.i.boolTerm(args[1])), types.Bool)
+	})
+	reg(mainPath+".bImplies", func(fr *frame, args []value) value {
+		e := fr.i.ex
+		return e.mkval(e.pool.Or(e.pool.Not(fr.i.boolTerm(args[0])), fr.i.boolTerm(args[1])), types.Bool)
+	})
 	reg(mainPath+".thorough", func(fr *frame, args []value) value { return sh.Thorough })
 	reg(mainPath+".symbolic", func(fr *frame, args []value) value { return true })
 	reg(mainPath+".observe", func(fr *frame, args []value) value {
@@ -204,6 +216,7 @@ type sideTables struct {
 	syncMap map[*value]*orderedMap
 	frames  map[*value]*framesState
 	logger  map[*value]*loggerState
+	atomicVal map[*value]value
 	pcs     []stackEntry
 }
 
@@ -230,6 +243,7 @@ func (i *interpreter) side() *sideTables {
 			syncMap: map[*value]*orderedMap{},
 			frames:  map[*value]*framesState{},
 			logger:  map[*value]*loggerState{},
+			atomicVal: map[*value]value{},
 		}
 	}
 	return i.sideT
@@ -386,6 +400,35 @@ func registerStdStubs(sh *Shared) {
 		f := atomicField(fr, args[0])
 		*f = (*f).(int64) + args[1].(int64)
 		return *f
+	})
+
+	// --- sync/atomic.Value ---
+	reg("(*sync/atomic.Value).Load", func(fr *frame, args []value) value {
+		fr.i.syncPoint(fr, "atomic-load")
+		fr.i.hbAcquire(fr, args[0])
+		if v, ok := fr.i.side().atomicVal[args[0].(*value)]; ok {
+			return v
+		}
+		return iface{}
+	})
+	reg("(*sync/atomic.Value).Store", func(fr *frame, args []value) value {
+		fr.i.syncPoint(fr, "atomic-store")
+		fr.i.side().atomicVal[args[0].(*value)] = args[1]
+		fr.i.hbRelease(fr, args[0])
+		return nil
+	})
+	reg("(*sync/atomic.Value).CompareAndSwap", func(fr *frame, args []value) value {
+		fr.i.syncPoint(fr, "atomic-cas")
+		cur, ok := fr.i.side().atomicVal[args[0].(*value)]
+		if !ok {
+			cur = iface{}
+		}
+		if cur.(iface).eq(nil, args[1].(iface)) {
+			fr.i.side().atomicVal[args[0].(*value)] = args[2]
+			fr.i.hbRelease(fr, args[0])
+			return true
+		}
+		return false
 	})
 
 	// --- sync.Map ---
@@ -820,7 +863,7 @@ func (i *interpreter) toNative(fr *frame, t types.Type, v value, depth int) inte
 	}
 	// methods first
 	if depth < 3 {
-		if m := i.prog.LookupMethod(t, nil, "Error"); m != nil && methodSigIs(m, 0, "string") {
+		if m := i.lookupMethodByName(t, "Error"); m != nil && methodSigIs(m, 0, "string") {
 			if p, ok := v.(*value); !ok || p != nil {
 				s := call(i, fr, token.NoPos, m, []value{v})
 				if str, ok := s.(string); ok {
@@ -828,7 +871,7 @@ func (i *interpreter) toNative(fr *frame, t types.Type, v value, depth int) inte
 				}
 			}
 		}
-		if m := i.prog.LookupMethod(t, nil, "String"); m != nil && methodSigIs(m, 0, "string") {
+		if m := i.lookupMethodByName(t, "String"); m != nil && methodSigIs(m, 0, "string") {
 			if p, ok := v.(*value); !ok || p != nil {
 				s := call(i, fr, token.NoPos, m, []value{v})
 				if str, ok := s.(string); ok {
@@ -1006,7 +1049,7 @@ func (i *interpreter) writeTo(fr *frame, w value, s string) value {
 	if itf.t == nil {
 		panic(runtimeError("invalid memory address or nil pointer dereference"))
 	}
-	m := i.prog.LookupMethod(itf.t, nil, "Write")
+	m := i.lookupMethodByName(itf.t, "Write")
 	if m == nil {
 		i.ex.unsupported("writer %s has no Write", itf.t)
 	}
@@ -1032,4 +1075,15 @@ func callSSAReal(fr *frame, name string, args []value) value {
 	i.noExt++
 	defer func() { i.noExt-- }()
 	return callSSA(i, fr.caller, fr.callpos, fn, args, nil)
+}
+
+func (i *interpreter) lookupMethodByName(t types.Type, name string) *ssa.Function {
+	if _, ok := t.Underlying().(*types.Interface); ok {
+		return nil
+	}
+	sel := i.prog.MethodSets.MethodSet(t).Lookup(nil, name)
+	if sel == nil {
+		return nil
+	}
+	return i.prog.MethodValue(sel)
 }
